@@ -1,4 +1,4 @@
-import SctpVerif.Proofs.NetSys.UnivD
+import SctpVerif.Proofs.NetSys.Count
 import SctpVerif.Proofs.NetSys.IData
 /-!
 Composition, DATA (no interleaving): the hypotheses of `C01_receiver_prefix` hold for the receiver run of every NetSys
@@ -26,7 +26,7 @@ theorem ofNat32_add_inj (t : BitVec 32) {a b : Nat} (ha : a < 2^32) (hb : b < 2^
 
 theorem netsys_prefix_data (P : Params) (ops : List Op) (si : BitVec 16)
     (hil : P.cfg.useInterleaving = false) (hrel : Reliable ops = true) (hsel : SelContig P ops = true)
-    (hN : chunksWritten P ops < 2^30) (hwin : WinOk P si (2^15) (init P) ops = true) :
+    (hN : chunksWritten P ops < 2^31) (hwin : WinOk P si (2^15) (init P) ops = true) :
     readsOn P si (init P) ops <+: writesOn P si (init P) ops := by
   have hs0 : (init P).snd = Sender.init P.cfg P.tsn P.peerRwnd := rfl
   have hlen := sndOps_lenOk P (init P).snd ops
@@ -39,17 +39,19 @@ theorem netsys_prefix_data (P : Params) (ops : List Op) (si : BitVec 16)
   have hsorted := accepted_sorted (init P).snd (sndOps P (init P).snd ops)
   obtain ⟨hgen, _⟩ := run_gen P.cfg.useInterleaving (fun m => (P.pay m).length) [] (init P).snd (sndOps P (init P).snd ops)
     (init_cinv _ P.cfg P.tsn P.peerRwnd) rfl hord hlen
-  have hWsum : (written (init P).snd (sndOps P (init P).snd ops)).length =
-      ((accepted (init P).snd (sndOps P (init P).snd ops)).map (nfr P)).sum := by
-    rw [hgen, gen_length_eq]; rfl
-  rw [← hs0] at hident hal hfr hmv hmid hnd
+  have hcnt := moved_count_le P.cfg P.tsn P.peerRwnd (sndOps P (init P).snd ops)
+  rw [← hs0] at hident hal hfr hmv hmid hnd hcnt
   simp only [chunksWritten] at hN
   simp only [SelContig, Bool.and_eq_true] at hsel
   obtain ⟨hsel1, hsel2⟩ := hsel
-  rw [hil] at hident hmid
-  generalize hacc : accepted (init P).snd (sndOps P (init P).snd ops) = acc at hident hal hfr hmid hsorted hWsum hsel2
-  generalize hmvd : moved (init P).snd (sndOps P (init P).snd ops) = mv at hident hmv hmid hnd hsel1 hsel2
-  generalize hW : (written (init P).snd (sndOps P (init P).snd ops)).length = W at hN hal hfr hmv hWsum
+  rw [hil] at hident hmid hgen
+  generalize hacc : accepted (init P).snd (sndOps P (init P).snd ops) = acc at hident hal hfr hmid hsorted hsel2 hgen
+  generalize hmvd : moved (init P).snd (sndOps P (init P).snd ops) = mv at hident hmv hmid hnd hsel1 hsel2 hcnt
+  generalize hWl : written (init P).snd (sndOps P (init P).snd ops) = Wl at hN hal hfr hmv hgen hcnt
+  have hcfg0 : (init P).snd.cfg = P.cfg := rfl
+  rw [hcfg0] at hgen
+  have hWsum : Wl.length = (acc.map (nfr P)).sum := by
+    rw [hgen, gen_length_eq]; rfl
   have ctx : DCtx P acc mv :=
     { il := hil, sorted := hsorted,
       mvid := fun j m hj => by
@@ -57,6 +59,7 @@ theorem netsys_prefix_data (P : Params) (ops : List Op) (si : BitVec 16)
         exact ⟨ws1, a, ws2, i, e1, e2, e3⟩
       nd := hnd, contig := contigB_spec mv hsel1, fifo := fifoB_spec P acc mv hsel2,
       small := fun a ha => by have := (hfr a ha).2.1; simp only [nfr]; omega }
+  generalize hW : Wl.length = W at hN hal hfr hmv hWsum
   -- every chunk of the sender run's wire is a fragment of the universe, at its position among the moves
   have hchunk : ∀ c ∈ wire (init P).snd (sndOps P (init P).snd ops), ∃ (ws1 : List Write) (a : Write) (ws2 : List Write) (i : Nat),
       acc = ws1 ++ a :: ws2 ∧ c.msg = a.msg ∧ c.si = a.si ∧
@@ -76,19 +79,40 @@ theorem netsys_prefix_data (P : Params) (ops : List Op) (si : BitVec 16)
   have hS : senderD P acc mv si ∈ sendersD P acc mv si := by
     simp only [sendersD, List.mem_map]
     exact ⟨si, (uniq_mem _ _).2 List.mem_cons_self, rfl⟩
-  have hNlt : mv.length + W < 2^31 := by omega
-  -- the TSN offset of every fragment of the universe, moved or not, is below `N`
+  -- the TSN offset of every fragment of the universe, moved or not, is below the number of chunks written
   have hidxAll : ∀ x k i, k < (senderD P acc mv x).msgs.length → i < (senderD P acc mv x).nf k →
-      (senderD P acc mv x).base k + i < mv.length + W := by
+      (senderD P acc mv x).base k + i < W := by
     intro x k i hk hi
+    have hklen : k < (acc.filter (·.si == x)).length := by
+      have : (senderD P acc mv x).msgs.length = (acc.filter (·.si == x)).length := by simp [senderD, msgsOf]
+      omega
+    have hak : (acc.filter (·.si == x))[k]? = some (acc.filter (·.si == x))[k] := List.getElem?_eq_getElem hklen
+    obtain ⟨u, v, eu, cu, hsu⟩ := filter_get_split acc x k _ hak
+    generalize (acc.filter (·.si == x))[k] = ak at hak eu hsu
+    have hnfk : (senderD P acc mv x).nf k = nfr P ak := by
+      have hmsg := senderI_msg P acc x k ak hak
+      have : (senderD P acc mv x).msg k = (senderI P acc x).msg k := rfl
+      simp only [Reasm.Sender.nf, this, hmsg, Reasm.Msg.nf, cut_length, nfr]
+    have hidxk : idxOfFrag P acc mv x k 0 = (mv.map Chunk.frag).idxOf (fragOf false ak k 0 (nfr P ak)) := by
+      simp only [idxOfFrag, hak, hil, nfr]
+    have cW := gen_count_msg false P.cfg.maxPayload.toNat (fun m => (P.pay m).length) acc u v ak ctx.sorted eu
+    rw [← hgen] at cW
+    have cM := moved_count_msg ctx u v ak eu
+    rw [hsu, cu] at cM
+    have un := unmoved_ge Wl mv hcnt (msgIs ak.msg)
     have h1 := idxOfFrag_le P acc mv x k 0
     have h2 := posOf_le P acc x (k + 1)
     have h3 := posOf_succ P acc x k hk
     have h4 : (senderD P acc [] x).nf k = (senderD P acc mv x).nf k := rfl
     have hb : (senderD P acc mv x).base k = posOf P acc x k + (idxOfFrag P acc mv x k 0 - posOf P acc x k) := rfl
-    rw [hb]
+    have hn : (fragSizes P.cfg.maxPayload.toNat (P.pay ak.msg).length).length = nfr P ak := rfl
+    rw [hidxk] at h1 hb
+    rw [hn] at cW
+    generalize (mv.map Chunk.frag).idxOf (fragOf false ak k 0 (nfr P ak)) = J0 at cM h1 hb
+    generalize ((mv.map Chunk.frag).countP (msgIs ak.msg)) = cm at cM un
+    generalize ((Wl.map Chunk.frag).countP (msgIs ak.msg)) = cw at cW un
     omega
-  have key := C01.C01_receiver_prefix (sendersD P acc mv si) P.tsn (mv.length + W) hNlt ?hWF ?ht0 ?hidx ?hsi
+  have key := C01.C01_receiver_prefix (sendersD P acc mv si) P.tsn W hN ?hWF ?ht0 ?hidx ?hsi
     P.maxBuf P.maxEntries P.cfg.useInterleaving P.useFwd P.useIFwd P.ackMode (rcvOps P (init P) ops) ?hgood
     (senderD P acc mv si) hS ?hwin
   · -- conclusion
